@@ -146,6 +146,21 @@ CHECKS = {
              note=T_BASE + '; loop shape (`for byte in data`, no break/continue, single state variable) checked structurally on the AST',
              technique='AST-generated verification conditions (bit-vector step lemma + loop invariant), z3',
              design_ref='DESIGN.md §5 C18'),
+ 'C11': dict(category='other',
+             text='Deductive: check_proof(c,h) on a REAL Merkle-proof cell over an abstract child of every kind (non-pruned masks 0,1,2,5,7; '
+                  'pruned masks 1,2,3,6) accepts IFF stored hash == h and the SPECIFICATION level-0 hash of the child == h, else ProofError; '
+                  'ordinary / pruned / library / Merkle-update cells carrying the expected hash are rejected; check_block_header_proof accepts '
+                  'IFF hash_0(root) == h and returns hash_0(root[2][1]); check_account_proof (Cell.from_boc and ShardStateUnsplit.deserialize '
+                  'by contract) accepts IFF two roots, header hash, state hash committed in the block, account present, and the claimed '
+                  'state\'s OWN representation hash equals the committed one (claimed state: ordinary with mask 0/5, pruned, pruned branch that '
+                  'merely carries the hash).  Completeness step (relational): the Merkle proof over T with a subtree replaced by a pruned '
+                  'branch is accepted against hash(T), any data/siblings; with C02.pruning_invariance this covers every pruning.  Soundness '
+                  'step UNDER THE NAMED ASSUMPTION of SHA-256 collision freedom: a change of data (lengths 1,8,77,1023), of a child\'s hash or '
+                  'depth, of a stored pruned hash, of the child count or data length changes the level-0 hash of the enclosing real cell; '
+                  'induction up the tree is on paper.  Bounded: random trees / prunings / bit-flip mutations with real SHA-256.',
+             note=T_BASE + '; SHA-256 collision resistance is ASSUMED for the soundness step only; deserialisers used by check_account_proof are replaced by their contracts (C03/C05/C16)',
+             technique='contracts (accept-iff predicates taken from the property) on the real functions, symbolic execution over all paths with abstract cells, relational obligations, z3 (LIA + EUF digests); collision freedom asserted as an axiom where named; native mutation sweep (bounded)',
+             design_ref='DESIGN.md §5 C11'),
  'C15': dict(category='other',
              text='Deductive: (room) MessageAny.serialize for 3 header kinds x size profiles (minimal, maximal with anycast and 15-byte '
                   'amounts, extra currencies) x state-init absent / all 32 field combinations x body reference count 0..4 with a body of '
